@@ -107,7 +107,7 @@ def ev (cls : ClassDef) : Ev → Json
   | .wrongVer s r => Json.arr #[Json.str "wrongVer", nat s, nat r]
   | .unknownId i f => Json.arr #[Json.str "unknownId", nat i, nat f]
   | .blocked e s => Json.arr #[Json.str "blocked", nat e, nat s]
-  | .callbackOpen cb => Json.arr #[Json.str "cbOpen", nat cb]
+  | .callbackOpen cb he ht => Json.arr #[Json.str "cbOpen", nat cb, nat he, tableJson cls ht]
 
 def state (n : Node) : Json :=
   Json.mkObj [
